@@ -6,6 +6,8 @@ Header  `chaos seed=<u64> [erate=<spec>] lrate=<spec> min_us=<µs> max_us=<µs> 
   first and everything else on the second builder type (`ChaosConfigBuilderWithRate`), 3 name + listeners before, rates / bounds /
   seed after `.error_rate(r)`; `entry`: `ChaosLayer::builder()` | `ChaosConfigBuilder::new()` | `ChaosConfigBuilder::default()`;
   `name=-`: `.name(..)` not called.
+  `chain=<tok>,…`: the builder setters in the order they are called (`m:<µs>` `M:<µs>` `l:<spec>` `e:<spec>` `s:<seed>` `n:<name>` `f` `h`),
+  any order, setters repeated; the configuration is the LAST setter of each kind, each on its own (see `chain`, `configured_bounds_us`).
   rate spec: T<n> = n/2^53 | b<f64 bits> | d<i>[+1|-1] = the i-th f64 of the seed's stream (± 2^-53)
 First op of every case: `probe cfg` (the harness reports the exact thresholds ⌈rate·2^53⌉).
 Requests `arrive <c> tag=<t> inner=<lat>:<out>`.
@@ -350,7 +352,85 @@ def builder_path(rng, hdr):
         hdr += " name=-"
     elif r < 0.30:
         hdr += " name=%s" % rng.choice(["a", "chaos-1", "payments", "x" * 40])
-    return hdr
+    return chain(rng, hdr)
+
+
+def chain_tokens(cfg):
+    """`chain=` of a header -> [(kind, value)] as written"""
+    return [tuple((t.split(":", 1) + [""])[:2]) for t in cfg.get("chain", "").split(",") if t]
+
+
+def configured_bounds_us(cfg):
+    """The latency bounds (µs) the header DEMANDS. With `chain=` (the builder setters in the order they are called): the LAST
+    `.min_latency(..)` / `.max_latency(..)` of the chain, the builder's defaults (10 ms / 100 ms) when a bound is never set — each
+    bound on its own, whatever the other one was at the moment of the call. Without it: `min_us` / `max_us`.
+    (Lean: builder_last_wins, latency_setters_independent, latency_in_configured_range.)"""
+    if "chain" not in cfg:
+        return int(cfg.get("min_us", "0")), int(cfg.get("max_us", "0"))
+    mn, mx = 10000, 100000
+    for k, v in chain_tokens(cfg):
+        if k == "m":
+            mn = int(v)
+        elif k == "M":
+            mx = int(v)
+    return mn, mx
+
+
+def chain(rng, hdr, p=0.4):
+    """THE ORDER OF THE BUILDER SETTERS as a dimension: ` chain=<tok>,<tok>,…` — `m:<µs>` min_latency, `M:<µs>` max_latency,
+    `l:<spec>` latency_rate, `e:<spec>` error_rate, `s:<seed>` seed, `n:<name>` name, `f` error_fn, `h` the listeners — called in
+    exactly that order on whichever builder type is current (`e` before `f`: through `ChaosConfigBuilderWithRate`; `f` first: the rate
+    is set on the builder with the error function, possibly several times). Any order; about a third of the settings are made more
+    than once (the earlier calls with other values: bounds above / below the other bound, rates 0 / 1 / mid, other seeds and names).
+    The last setter of each kind carries the value of the header (`min_us` … stay the configured values), so the case's operations
+    need no change. Replaces `order=`."""
+    if rng.random() >= p:
+        return hdr
+    cfg = kvs(hdr)
+    mn, mx = int(cfg.get("min_us", "0")), int(cfg.get("max_us", "0"))
+    final = {"m": str(mn), "M": str(mx), "l": cfg.get("lrate", "T0"), "s": cfg.get("seed", "0")}
+    if cfg.get("name", "-") != "-":
+        final["n"] = cfg["name"]
+    toks = [(k, None) for k in final] + [("h", None)]
+    if "erate" in cfg:
+        toks.append(("f", None))
+
+    def decoy(k):
+        if k == "m":
+            return str(rng.choice([0, 1000, mx, mx + 1000, mx + rng.randint(1, 20) * 1000, 2 * mn + 500, 10000, 3600 * 10 ** 6]))
+        if k == "M":
+            return str(rng.choice([0, 1000, mn, max(0, mn - 1000), mn + rng.randint(1, 20) * 1000, 100000, 3600 * 10 ** 6]))
+        if k in ("l", "e"):
+            return rng.choice(["T0", "T%d" % P53, "T%d" % (P53 // 2), "T%d" % rng.randint(0, P53)])
+        if k == "s":
+            return str(rng.choice([0, 1, 42, rng.randint(0, (1 << 64) - 1)]))
+        return rng.choice(["a", "b-2", "verif"])
+    for k in list(final):
+        while rng.random() < 0.3:
+            toks.append((k, decoy(k)))
+    rng.shuffle(toks)
+    if "erate" in cfg:
+        # `.error_rate(..)`: once before `.error_fn(..)` at most (the second builder type has no such setter), any number of times after
+        fi = [i for i, t in enumerate(toks) if t[0] == "f"][0]
+        r = rng.random()
+        n_after = rng.choice([0, 0, 1, 2]) if r < 0.5 else rng.choice([1, 1, 2])
+        if r < 0.5:
+            toks.insert(rng.randint(0, fi), ("e", decoy("e")))
+            fi += 1
+        for _ in range(n_after):
+            toks.insert(rng.randint(fi + 1, len(toks)), ("e", decoy("e")))
+        final["e"] = cfg["erate"]
+    # the last setter of each kind carries the header's value
+    for k, v in final.items():
+        idx = [i for i, t in enumerate(toks) if t[0] == k]
+        for i in idx[:-1]:
+            if toks[i][1] is None:
+                toks[i] = (k, decoy(k))
+        toks[idx[-1]] = (k, v)
+    hdr = " ".join(w for w in hdr.split() if not w.startswith("order="))
+    out = hdr + " chain=" + ",".join(k if v is None else "%s:%s" % (k, v) for k, v in toks)
+    assert configured_bounds_us(kvs(out)) == (mn, mx)
+    return out
 
 
 def services(rng, case, force=False):
@@ -556,7 +636,8 @@ def gen_ordinary(rng, tier):
 def _scan(case, lines, meta):
     """-> dict with thresholds, bounds, per-caller first poll / inner call / result / drop"""
     cfg = kvs(case["header"])
-    info = {"eT": None, "lT": None, "mn": int(cfg.get("min_us", "0")) // 1000, "mx": int(cfg.get("max_us", "0")) // 1000,
+    mn_us, mx_us = configured_bounds_us(cfg)
+    info = {"eT": None, "lT": None, "mn": mn_us // 1000, "mx": mx_us // 1000,
             "sweep": cfg.get("sweep") == "1", "fp": {}, "call": {}, "res": {}, "drop": {}, "tags": {}, "twin": []}
     for o in case["ops"]:
         w = o.split()
@@ -889,8 +970,10 @@ def mon_latency(case, lines, meta):
     for c in sorted(seen):
         for d in seen[c]:
             if d.startswith("lat:") and not lo <= int(d[4:]) <= hi:
-                return ("request %d: the layer reports an injected latency of %s ms, outside [min_latency, max_latency] = [%d,%d] ms%s"
-                        % (c, d[4:], mn, mx, "" if mn <= mx else " (min > max: min_latency is used)"))
+                ch = kvs(case["header"]).get("chain")
+                return ("request %d: the layer reports an injected latency of %s ms, outside [min_latency, max_latency] = [%d,%d] ms%s%s"
+                        % (c, d[4:], mn, mx, "" if mn <= mx else " (min > max: min_latency is used)",
+                           " — the bounds last given to the builder, whose setters were called in the order " + ch if ch else ""))
     for c, t0 in i["fp"].items():
         ps = polls.get(c, [])
         if c in i["call"]:
@@ -974,7 +1057,7 @@ def mon_observed_latency(case, lines, meta):
 def transitions(case, lines, meta=None):
     cfg = kvs(case["header"])
     tags = []
-    mn, mx = int(cfg.get("min_us", "0")) // 1000, int(cfg.get("max_us", "0")) // 1000
+    mn, mx = [x // 1000 for x in configured_bounds_us(cfg)]
     tags.append("range-" + ("eq" if mn == mx else "inverted" if mn > mx else "proper"))
     if mn >= 1000:
         tags.append("min-at-least-1s")
@@ -1029,6 +1112,31 @@ def transitions(case, lines, meta=None):
         tags.append("builder-with-rate-" + ("all" if cfg["order"] == "2" else "split"))
     if cfg.get("entry") in ("new", "default"):
         tags.append("entry-" + cfg["entry"])
+    if "chain" in cfg:
+        tags.append("chain")
+        toks = chain_tokens(cfg)
+        kinds = [k for k, _ in toks]
+        if any(kinds.count(k) > 1 for k in "mMlsn"):
+            tags.append("chain-setter-repeated")
+        if "m" in kinds and "M" in kinds and len(kinds) - 1 - kinds[::-1].index("M") < len(kinds) - 1 - kinds[::-1].index("m"):
+            tags.append("chain-max-before-min")
+        cur_mn, cur_mx, below, above = 10000, 100000, False, False
+        for k, v in toks:
+            if k == "m":
+                cur_mn = int(v)
+                above = above or cur_mn // 1000 > cur_mx // 1000
+            elif k == "M":
+                cur_mx = int(v)
+                below = below or cur_mx // 1000 < cur_mn // 1000
+        if below and mn < mx:
+            tags.append("chain-max-set-below-current-min-range-proper")
+        if above and mn < mx:
+            tags.append("chain-min-set-above-current-max-range-proper")
+        if "f" in kinds:
+            fi = kinds.index("f")
+            tags.append("chain-error-rate-before-fn" if "e" in kinds[:fi] else "chain-error-fn-first")
+            if kinds[fi:].count("e") > 0:
+                tags.append("chain-error-rate-after-fn")
     if "name" in cfg:
         tags.append("name-unset" if cfg["name"] == "-" else "name-custom")
     # several services from the one layer value
@@ -1142,7 +1250,9 @@ ALL = ["range-eq", "range-inverted", "range-proper", "no-error-injector", "rate-
        "builder-with-rate-all", "builder-with-rate-split", "entry-new", "entry-default", "name-unset", "name-custom",
        "services-2plus", "service-starts-after-sibling-served", "services-interleaved", "services-2plus-decisions-each",
        "service-from-layer-clone", "service-from-layer-clone-taken-after-services-built", "draw-scheme-as-reference",
-       "latency-zero", "latency-observed-exact", "latency-observed-late"]
+       "latency-zero", "latency-observed-exact", "latency-observed-late",
+       "chain", "chain-setter-repeated", "chain-max-before-min", "chain-max-set-below-current-min-range-proper",
+       "chain-min-set-above-current-max-range-proper", "chain-error-rate-before-fn", "chain-error-fn-first", "chain-error-rate-after-fn"]
 
 LEVEL_NOTE = ("Trusted: Lean kernel; the reading of service.rs:91-152 as the poll-level machine of TR.Model.Chaos (what a request does once its "
               "decision is taken), validated by the sampled correspondence check; the decision itself is NOT modelled as a particular function: the "
@@ -1177,7 +1287,10 @@ COMMON = {
             "among the first polls, or later (`manual dropsvc`; later arrivals are noop); in about 40% of the cases 2-4 services are made from the "
             "one layer value (`svc=k`, optionally from a clone of the layer), traffic alternating / random / service after service; builder paths: "
             "error_rate/error_fn in both orders, everything or part configured on the second builder type (order=2/3), ChaosLayer::builder() / "
-            "ChaosConfigBuilder::new() / ::default(), name set / unset; every request is also given to the twin of its service — an independently "
+            "ChaosConfigBuilder::new() / ::default(), name set / unset; in about 40% of the cases the builder setters (min / max latency, rates, "
+            "seed, name, error_fn, listeners) are called in a random order, about a third of them more than once with other values first "
+            "(`chain=`: max before min, a bound set below / above the other bound's current value, error_rate before / after error_fn), the "
+            "demanded configuration being the last setter of each kind; every request is also given to the twin of its service — an independently "
             "built, equally seeded service driven differently (one handle, call() at the first poll); about 2% (quick) / 1.2% (thorough) of the "
             "cases are real-thread stress runs compared with a sequential run of an equally seeded service "
             "(2-16 OS threads on clones of one seeded service, 20k-160k calls quick, 50k-800k thorough; rate 1, rates 0, latency rate 1, mid rates); "
@@ -1208,7 +1321,9 @@ COMMON = {
                   "multiset of decisions as a sequential run (interleaving_multiset, interleavings_agree, stress_oracle_sound) — given that a request's "
                   "decision is taken atomically; dropping every handle at any point leaves the run what it is without that operation and the later "
                   "arrivals (handles_dropped_no_effect, …); the whole seconds of a bound count (bound_in_ms, latency_at_least_min, "
-                  "one_second_is_one_second). OVER THE COMPARED, TIMESTAMPED LOG (State.tlog = the log with the instants the driver prints: "
+                  "one_second_is_one_second); the configured range is the last .min_latency / .max_latency of the builder chain (defaults 10 / 100 ms), "
+                  "each bound independent of every other setter and of the order of the calls, and an allowed delay lies within it "
+                  "(builder_last_wins, latency_setters_independent, latency_in_configured_range). OVER THE COMPARED, TIMESTAMPED LOG (State.tlog = the log with the instants the driver prints: "
                   "trace_is_the_log; it contains the harness's line `first_poll c svc=k`): the lines of a request are exactly what its decision "
                   "dictates (request_lines, decision_observable: decision = inject iff a result and NO inner_call; the ghost decision list is the list "
                   "of first_poll lines); the i-th request with a first_poll line on service k shows decision sigma k i (log_decisions_are_stream, "
